@@ -234,9 +234,11 @@ def make_stimulus(rng, block, ncycles, exhaustive):
 # ----------------------------------------------------------------------------
 # running the real passes
 
-def run_real(block, ps):
+def run_real(block, ps, views=None):
     """returns (raised_at, error) ; raised_at = index of the pass that raised PyrtlError, or None"""
     for k, p in enumerate(ps):
+        if views is not None and k == len(ps) - 1:
+            views.append(real_view(block))
         try:
             getattr(pyrtl, PASSES[p])(block=block)
         except (pyrtl.PyrtlError, pyrtl.PyrtlInternalError) as e:
@@ -404,11 +406,11 @@ def post_real(p, wires, nets):
             for a in set(n[2]):
                 rd[a].append(n)
         for n in nets:
-            if n[0] == '@' or n[3] is None:
+            if n[0] in '@r' or n[3] is None:    # producers the pass documents as not retargetable
                 continue
             r = rd.get(n[3], [])
             if len(r) == 1 and r[0][0] == 'w' and wires.get(r[0][3], (0, 0))[1] == 2:
-                bad.append(('w-before-output', '%s producer' % n[0]))
+                bad.append(('w-before-output', (n, r[0])))
                 break
     elif p == 6:
         fo = fanout_counts(nets)
@@ -424,7 +426,7 @@ def pass_sequences(ctx, rng, kind):
     singles = [[p] for p in range(1, 7)]
     pairs = [[p, q] for p in range(1, 7) for q in range(1, 7) if p != q]
     if ctx.tier == 'quick':
-        pairs = rng.sample(pairs, 5)
+        pairs = rng.sample(pairs, 3)
     elif kind not in ('synth', 'logic', 'directed'):
         pairs = rng.sample(pairs, 14)
     return singles + pairs
@@ -432,7 +434,7 @@ def pass_sequences(ctx, rng, kind):
 
 def run(ctx):
     quick = ctx.tier == 'quick'
-    plan = ([('directed', 30), ('generic', 22), ('synth', 14), ('logic', 14), ('raw', 14)] if quick else
+    plan = ([('directed', 24), ('generic', 14), ('synth', 8), ('logic', 10), ('raw', 10)] if quick else
             [('directed', 120), ('generic', 260), ('synth', 120), ('logic', 160), ('raw', 160)])
     cases = []
     exprs = []
@@ -465,8 +467,9 @@ def run(ctx):
             for si, ps in enumerate(pss):
                 restore(block, snap)
                 pyrtl.set_working_block(block, no_sanity_check=True)
-                raised_at, err = run_real(block, ps)
-                r = {'ps': ps, 'raised_at': raised_at, 'err': err, 'sane': None, 'sane_err': None,
+                views = []
+                raised_at, err = run_real(block, ps, views)
+                r = {'ps': ps, 'before_last': views[0] if views else None, 'raised_at': raised_at, 'err': err, 'sane': None, 'sane_err': None,
                      'trace': None, 'mem': None}
                 if raised_at is None:
                     try:
@@ -518,7 +521,7 @@ def run(ctx):
                 ctx.count('ops_before', n[0])
             ctx.count('registers', len(regs))
             ctx.count('memories', len(mems))
-    results = ctx.coq_eval(exprs, IMPORTS, tag='c09', shard=4 if quick else 8, jobs=14)
+    results = ctx.coq_eval(exprs, IMPORTS, tag='c09', shard=3 if quick else 8, jobs=16)
     extra_res = ctx.coq_eval(extra_exprs, IMPORTS, tag='c09real', shard=12, jobs=14) if extra_exprs else []
     extra_by = {}
     for (ci, si, nms), res in zip(extra_ref, extra_res):
@@ -581,6 +584,15 @@ def run(ctx):
                 sig = '%s:%s' % (PASSES[last], tag)
                 if last == 4 and any(n[0] == 's' and orig_w[n[3]][0] < len(n[1]) for n in orig_n):
                     sig = 'one_bit_selects:truncating-dest'
+                if last == 5 and r['before_last'] is not None:
+                    # the left-over 'w t -> o': before the pass o was fed through a chain t -w-> t2 -w-> o
+                    bn = r['before_last'][1]
+                    t, o = detail[1][2][0], detail[1][3]
+                    for n2 in bn:
+                        if n2[0] == 'w' and n2[3] == o and any(
+                                n1[0] == 'w' and n1[3] == n2[2][0] and n1[2][0] == t for n1 in bn):
+                            sig = 'direct_connect_outputs:w-chain-not-fixpoint'
+                    detail = '%s producer' % detail[0][0]
                 ctx.spec_violation(sig, 'postcondition of %s violated after %s: %s %s' % (
                     PASSES[last], psn, tag, detail), dict(rep, nets_after=[str(n) for n in rn]))
             ctx.count('postcondition_model', '%s:%d' % (PASSES[last], flags[1]))
@@ -636,7 +648,7 @@ def run(ctx):
             if r['trace'] is not None and flags[2] == 1:
                 if flags[5] == 0:
                     ctx.model_mismatch('wfb false on the model result of %s' % psn, rep)
-                ctx.count('wfb_of_model_result', {1: 'true', 0: 'false', 2: 'not-evaluated(>120 nets)'}[flags[5]])
+                ctx.count('wfb_of_model_result', {1: 'true', 0: 'false', 2: 'not-evaluated(>60 nets)'}[flags[5]])
                 midx = [morder.index(o) for o in c['outs']]
                 mtrace = [[row[k] for k in midx] for row in mspec[1:]]
                 if mtrace != r['trace'] or mspec[0] != r['mem']:
